@@ -29,6 +29,10 @@ pub broadcast axiom fn ax_arc_last_owner_unit(a: std::sync::Arc<()>)
     ensures #[trigger] arc_last_owner::<(), std::alloc::Global>(a) == shims::last_owner(a);
 pub assume_specification<T: Default>[ core::mem::take ](dest: &mut T) -> (r: T)
     ensures r == *old(dest);
+/// `<[T]>::sort()`: a permutation (same length, same members with the same multiplicity); the order is std's
+#[verifier::allow(undeclared_external_trait)]
+pub assume_specification<T: Ord>[ <[T]>::sort ](v: &mut [T])
+    ensures final(v)@.len() == old(v)@.len(), final(v)@.to_multiset() == old(v)@.to_multiset();
 pub mod shims {
     use super::*;
     use super::flexi_error::FlexiLoggerError;
@@ -126,6 +130,10 @@ pub mod logger_handle {
     //@   ens[LoggerHandle::drop.post.last_clone_shuts_down] last_owner(old(self).token()) ==> pw_shut() && forall|w: Box<dyn LogWriter>| #[trigger] old(self).writers().values().contains(w) ==> ow_shut(w.wid())
         pub closed spec fn is_multi(&self) -> bool { *self.writers_handle.primary_writer is Multi }
         pub closed spec fn writers(&self) -> Map<String, Box<dyn LogWriter>> { (*self.writers_handle.other_writers)@ }
+    //@ fn src/logger_handle.rs impl LoggerHandle / fn existing_log_files
+    //@   ret r
+    //@   props C16
+    //@   ens[LoggerHandle::existing_log_files.post] (r is Ok) == (pw_elf_result(selector) is Ok) && (r is Ok ==> r->Ok_0@.to_multiset() == pw_elf_result(selector)->Ok_0@.to_multiset())
     //@ fn src/logger_handle.rs impl LoggerHandle / fn reset_flw
     //@   ret r
     //@   props C18
